@@ -22,7 +22,7 @@ Apply(M, r) ==
     [] r.e = "open" -> MonOpen(M, r.p, r.r)
     [] r.e = "close" -> MonClose(M, r.p, r.r)
     [] r.e = "val" -> MonVal(M, r.p, r.v, r.r)
-    [] r.e = "send" -> MonSend(M, r.p, r.m, r.r)
+    [] r.e = "send" -> MonSend(M, r.p, r.m, r.r, r.sz = "over")
     [] r.e = "ev" -> MonEvent(M, r.p, r.k)
     [] r.e = "conn" -> MonEnv(M, r.p, r.k)
     [] r.e = "panic" -> MonPanic(M)
